@@ -56,7 +56,7 @@ theorem sameNames_trans : ∀ {t1 t2 t3 : TRef}, sameNames t1 t2 → sameNames t
     description. Type references keep their shape and the name at their base. -/
 def SameHead : Obj → Obj → Prop
   | .type t, .type t' => t'.kind = t.kind ∧ t'.name = t.name ∧ t'.desc = t.desc ∧ t'.dres = t.dres ∧ t'.rtype = t.rtype ∧
-      t'.values = t.values ∧ t'.prot = t.prot
+      t'.values = t.values ∧ t'.prot = t.prot ∧ t'.cls = t.cls
   | .field f, .field f' => f'.name = f.name ∧ f'.desc = f.desc ∧ f'.depr = f.depr ∧ f'.res = f.res ∧ f'.sub = f.sub ∧ f'.py = f.py ∧
       sameNames f.ty f'.ty
   | .arg g, .arg g' => g'.name = g.name ∧ g'.py = g.py ∧ g'.dflt = g.dflt ∧ g'.desc = g.desc ∧ sameNames g.ty g'.ty
@@ -73,9 +73,9 @@ theorem SameHead.refl (o : Obj) : SameHead o o := by cases o <;> simp [SameHead,
 
 theorem SameHead.trans {o1 o2 o3 : Obj} (a : SameHead o1 o2) (b : SameHead o2 o3) : SameHead o1 o3 := by
   cases o1 <;> cases o2 <;> cases o3 <;> simp only [SameHead] at a b ⊢ <;> try exact a.elim
-  · obtain ⟨a1, a2, a3, a4, a5, a6, a7⟩ := a
-    obtain ⟨b1, b2, b3, b4, b5, b6, b7⟩ := b
-    exact ⟨b1.trans a1, b2.trans a2, b3.trans a3, b4.trans a4, b5.trans a5, b6.trans a6, b7.trans a7⟩
+  · obtain ⟨a1, a2, a3, a4, a5, a6, a7, a8⟩ := a
+    obtain ⟨b1, b2, b3, b4, b5, b6, b7, b8⟩ := b
+    exact ⟨b1.trans a1, b2.trans a2, b3.trans a3, b4.trans a4, b5.trans a5, b6.trans a6, b7.trans a7, b8.trans a8⟩
   · obtain ⟨a1, a2, a3, a4, a5, a6, a7⟩ := a
     obtain ⟨b1, b2, b3, b4, b5, b6, b7⟩ := b
     exact ⟨b1.trans a1, b2.trans a2, b3.trans a3, b4.trans a4, b5.trans a5, b6.trans a6, sameNames_trans a7 b7⟩
@@ -276,17 +276,17 @@ theorem write_field_ty (chk : Ref → Bool) (h : Heap) (a : Addr) (f : FieldO) (
 
 theorem write_type_fields (chk : Ref → Bool) (h : Heap) (a : Addr) (t : TypeO) (kept : List Addr) (ht : h.readType a = some t)
     (hk : List.Sublist kept t.fields) : StepImp chk h (h.write a (.type { t with fields := kept })) :=
-  step_write chk h a _ _ (readType_read ht) ⟨⟨rfl, rfl, rfl, rfl, rfl, rfl, rfl⟩, by simpa [kids] using hk,
+  step_write chk h a _ _ (readType_read ht) ⟨⟨rfl, rfl, rfl, rfl, rfl, rfl, rfl, rfl⟩, by simpa [kids] using hk,
     fun hr => by simpa [refsOf, typeRefs] using hr⟩
 
 theorem write_type_ifaces (chk : Ref → Bool) (h : Heap) (a : Addr) (t : TypeO) (new : List Ref) (ht : h.readType a = some t)
     (hn : new.all chk = true) : StepImp chk h (h.write a (.type { t with ifaces := new })) :=
-  step_write chk h a _ _ (readType_read ht) ⟨⟨rfl, rfl, rfl, rfl, rfl, rfl, rfl⟩, List.Sublist.refl _, fun hr => by
+  step_write chk h a _ _ (readType_read ht) ⟨⟨rfl, rfl, rfl, rfl, rfl, rfl, rfl, rfl⟩, List.Sublist.refl _, fun hr => by
     cases hk : t.kind <;> simp_all [refsOf, typeRefs]⟩
 
 theorem write_type_members (chk : Ref → Bool) (h : Heap) (a : Addr) (t : TypeO) (new : List Ref) (ht : h.readType a = some t)
     (hn : new.all chk = true) : StepImp chk h (h.write a (.type { t with members := new })) :=
-  step_write chk h a _ _ (readType_read ht) ⟨⟨rfl, rfl, rfl, rfl, rfl, rfl, rfl⟩, List.Sublist.refl _, fun hr => by
+  step_write chk h a _ _ (readType_read ht) ⟨⟨rfl, rfl, rfl, rfl, rfl, rfl, rfl, rfl⟩, List.Sublist.refl _, fun hr => by
     cases hk : t.kind <;> simp_all [refsOf, typeRefs]⟩
 
 /-! ### visitors as steps -/
